@@ -261,7 +261,11 @@ def names(cfg, crate, ctx, rep):
                 call_txt = ptxt.rstrip("?")
                 propagated = ptxt.endswith("?") or any(core(tv).r() == call_txt for tv, tn, tf, tc in I.tries)
                 src_txt = "validated name" + (" (error propagated)" if propagated else " (error NOT propagated)")
-            elif ptxt.endswith("(%s)#Ok.0" % elem) and ("try_from" in ptxt or "try_into" in ptxt):
+            elif (ptxt.endswith("(%s)#Ok.0" % elem) and ("try_from" in ptxt or "try_into" in ptxt)) \
+                    or (ptxt == elem + "#Ok.0" and (any(r.startswith("via:") and ("try_into" in r or "try_from" in r) for r in roots(payload))
+                                                    or any(("try_into" in cal_ or "try_from" in cal_) and args_ and core(args_[0]).r() == elem for cal_, args_, n_, cond_, f_ in I.calls))):
+                # (the element itself is a string: an Ok/Err test "of the element" is the test of its checked conversion,
+                # which the value model sees through)
                 # the success payload of a checked conversion of this element, taken apart by a `match`: its failure must
                 # leave the function with an error on these paths
                 place_ = ptxt[:-len("#Ok.0")]
@@ -331,10 +335,25 @@ def names(cfg, crate, ctx, rep):
     norm = [(s, [p.replace("options().run.", "opts.").replace("bpaf::OptionParser::run(options()).", "opts.") for p in a], [p.replace("bpaf::OptionParser::run(options()).", "opts.") for p in b]) for s, a, b in got]
     rep.ob("C18.names", "%s|main|file-names" % cfg, sorted(got) == sorted([("entity", ["output"], ["cert_file_name"]), ("ca", ["output"], ["ca_file_name"])]), "the end-entity pair goes to cert_file_name and the CA pair to ca_file_name, both under the output directory", found=got)
     flags = {}
+    fconds = {}
     for t, k, p, n, f, cond in I.muts:
         if f == "main" and k.startswith("method:cert::EndEntityBuilder::"):
-            flags[k.split("::")[-1]] = F.show(cond)
-    ok = len(flags) == 2 and "client_auth" in flags.get("client_auth", "") and "server_auth" in flags.get("server_auth", "") and "!" not in flags.get("client_auth", "!") and "!" not in flags.get("server_auth", "!")
+            fconds.setdefault(k.split("::")[-1], []).append(cond)
+    # each builder method runs exactly when the like-named flag is set, whatever the other flag is (truth table over the two
+    # flags: a pair of `if`s, one `match` on the tuple, nested ifs .. are the same table)
+    ok = set(fconds) == {"client_auth", "server_auth"}
+    for m_, cs_ in fconds.items():
+        d_ = F.Or(*cs_)
+        flags[m_] = F.show(d_)
+        ats_ = F.atoms(d_)
+        fl_ = {a: [x for x in ("client_auth", "server_auth") if str(a[1]).endswith("." + x)] for a in ats_}
+        if any(a[0] != "true" or len(fl_[a]) != 1 for a in ats_):
+            ok = False
+            continue
+        for asg in F.assignments(list(ats_)):
+            want_ = [v_ for a, v_ in asg.items() if fl_[a] == [m_]]
+            if not want_ or len(set(want_)) != 1 or bool(F.evalf(d_, asg)) != want_[0]:
+                ok = False
     rep.ob("C18.names", "%s|main|purpose-flags" % cfg, ok, "--client-auth / --server-auth call the like-named builder methods", found=flags)
     for m, want_v in (("client_auth", "ClientAuth"), ("server_auth", "ServerAuth")):
         fn = "cert::EndEntityBuilder::" + m
